@@ -78,6 +78,8 @@ def call_value(E, fv, args, kw, st, out, node):
         return call_ext(E, fv.name, args, kw, st, out, node)
     if isinstance(fv, VBound):
         return call_bound(E, fv, args, kw, st, out, node)
+    if isinstance(fv, VRef):
+        return E.call_method(fv, "__call__", args, kw, st, out, node)
     if isinstance(fv, VType):
         res = []
         for cname in ("HeaderItem", "CurveItem"):
